@@ -3,12 +3,15 @@ mod checks;
 mod codecx;
 mod enc;
 mod imagex;
+mod interpose;
 mod lockx;
 mod model;
 mod names;
 mod probes;
 mod report;
 mod sched;
+mod schedx;
+mod shadow;
 mod seqx;
 mod sut;
 mod vt;
@@ -27,6 +30,7 @@ fn main() {
         }
         Some("seqx-worker") => checks::seq_worker(&args[2], &args[3], args[4].parse().unwrap()),
         Some("lock-contender") => lockx::contender_main(&args[2]),
+        Some("schedx-shard") => checks::sched_shard(&args[2], &args[3], args[4].parse().unwrap(), args[5].parse().unwrap()),
         Some("selftest") => checks::selftest(),
         Some("replay") => checks::replay(args.get(2).expect("replay file")),
         _ => {
